@@ -421,6 +421,14 @@ pub fn read_case(ctx: &mut Ctx, prop: &str, case: &Case) -> Vec<String> {
     let res = if r.trace.is_empty() { "-".to_string() } else { r.trace.join(";") };
     ctx.case(&op, &res);
     // ---- oracle: the property's observable statement on the real connection
+    // a frame whose size byte announces exactly its own length, within what a size byte can announce (4..=1020 bytes
+    // compressed, 4..=255 uncompressed), is never a framing error: it is a packet or an undecodable frame
+    for f in &case.frames {
+        let announced = if case.compressed { f[0] as usize * 4 } else { f[0] as usize };
+        if f.len() >= 4 && announced == f.len() && tbl[f] == "F" {
+            ctx.violation(&format!("c05/framing/well-framed-rejected/{}", mode_tok(case.compressed)), "a complete frame whose size byte announces exactly its length was treated as a framing error", &format!("conn.case {} {} v0 {} d:{},z", case.fl.tok(), mode_tok(case.compressed), hex(f), hex(f)), "a packet or a decode error", "framing error");
+        }
+    }
     let valid = case.frames.iter().all(|f| tbl[f] != "F");
     let stream: Vec<u8> = case.frames.concat();
     let delivered: Vec<u8> = case.events.iter().filter_map(|e| if let Ev::Data(b) = e { Some(b.clone()) } else { None }).flatten().collect();
@@ -589,6 +597,25 @@ pub fn generate_reads(ctx: &mut Ctx, prop: &str) {
             }
         }
         ctx.exhaustive_domains.push(format!("all segmentations of 4 short streams (8..12 bytes), both flavours, mode {}{}", mode_tok(compressed), if quick { " (every 3rd composition of the 12-byte stream in quick)" } else { "" }));
+        // 1b. the largest frames a size byte can announce (255 x 4 = 1020 bytes compressed, 255 bytes uncompressed), decodable
+        // (a padded TINY) and undecodable (unknown type), between ordinary frames
+        {
+            let maxlen = if compressed { 1020 } else { 255 };
+            for len in [maxlen, maxlen - (if compressed { 4 } else { 3 })] {
+                let mut big = vec![0u8; len]; big[0] = size_byte(compressed, len); big[1] = 3; big[2] = 7; big[3] = 3;
+                let mut bigbad = vec![0u8; len]; bigbad[0] = size_byte(compressed, len); bigbad[1] = 200;
+                for fl in [Flavour::Blocking, Flavour::Tokio] {
+                    for frames in [vec![ka.clone(), big.clone(), ping.clone(), big.clone(), ka.clone()], vec![ping.clone(), bigbad.clone(), ping.clone()], vec![big.clone()]] {
+                        for style in [0u64, 1, 2, 3, 4] {
+                            if quick && style == 0 && frames.len() > 1 { continue; }
+                            let mut evs = random_partition(&mut ctx.rng, &frames.concat(), style);
+                            evs.push(Ev::Eof);
+                            let _ = read_case(ctx, prop, &Case { fl, compressed, verify: false, frames: frames.clone(), events: evs, wscript: vec![] });
+                        }
+                    }
+                }
+            }
+        }
         // 2. C07: all TINY sub-types x request ids, and one frame of every other kind, in every position of short histories
         if prop == "C07" || !quick {
             for fl in [Flavour::Blocking, Flavour::Tokio] {
